@@ -309,7 +309,8 @@ func checkC08(c *Ctx, r *Report) {
 	checkDMBlockInterleave(c, r)
 	checkDMEccOrder(c, r)
 	checkDMFrame(c, r)
-	r.Note("not decided: the decoder's de-interleave (DataBlock_getDataBlocks, loop-carried offsets with the 144x144 special case); the finder/clock drawing loop; the traversal loop of Place/readCodewords beyond its shapes and trigger conditions")
+	checkDMSweep(c, r)
+	r.Note("the decoder's de-interleave is decided under C05 / C02 (S-DMDEINT); not decided: the traversal loop of Place / readCodewords beyond its shapes, corner cases and trigger conditions")
 }
 
 func checkDMTables(c *Ctx, r *Report) {
@@ -1710,4 +1711,286 @@ func checkDMDeinterleave(c *Ctx, r *Report) {
 		}
 		r.Check(bad == "", "S-DMDEINT", key, pos, bad)
 	}
+}
+
+// ---------------------------------------------------------------------------------------------------------------
+// S-DMSWEEP: the Annex F sweep as a whole, encoder and decoder, for all 30 mapping matrices
+// ---------------------------------------------------------------------------------------------------------------
+
+type dmCell struct {
+	pos, bit int // codeword index (0-based) and bit number 1..8 (1 = most significant); pos -1: fixed pattern
+	fixed    bool
+	set      bool
+}
+
+// refDMPlacement is ISO 16022 Annex F.3 written out: the mapping matrix of nrow x ncol modules.
+func refDMPlacement(nrow, ncol int) [][]dmCell {
+	arr := make([][]dmCell, nrow)
+	for i := range arr {
+		arr[i] = make([]dmCell, ncol)
+	}
+	module := func(row, col, chr, bit int) {
+		if row < 0 {
+			row += nrow
+			col += 4 - ((nrow + 4) % 8)
+		}
+		if col < 0 {
+			col += ncol
+			row += 4 - ((ncol + 4) % 8)
+		}
+		arr[row][col] = dmCell{pos: chr, bit: bit, set: true}
+	}
+	utah := func(row, col, chr int) {
+		module(row-2, col-2, chr, 1)
+		module(row-2, col-1, chr, 2)
+		module(row-1, col-2, chr, 3)
+		module(row-1, col-1, chr, 4)
+		module(row-1, col, chr, 5)
+		module(row, col-2, chr, 6)
+		module(row, col-1, chr, 7)
+		module(row, col, chr, 8)
+	}
+	corner := func(cells [8][2]int, chr int) {
+		for i, rc := range cells {
+			module(rc[0], rc[1], chr, i+1)
+		}
+	}
+	chr, row, col := 0, 4, 0
+	for {
+		if row == nrow && col == 0 {
+			corner([8][2]int{{nrow - 1, 0}, {nrow - 1, 1}, {nrow - 1, 2}, {0, ncol - 2}, {0, ncol - 1}, {1, ncol - 1}, {2, ncol - 1}, {3, ncol - 1}}, chr)
+			chr++
+		}
+		if row == nrow-2 && col == 0 && ncol%4 != 0 {
+			corner([8][2]int{{nrow - 3, 0}, {nrow - 2, 0}, {nrow - 1, 0}, {0, ncol - 4}, {0, ncol - 3}, {0, ncol - 2}, {0, ncol - 1}, {1, ncol - 1}}, chr)
+			chr++
+		}
+		if row == nrow-2 && col == 0 && ncol%8 == 4 {
+			corner([8][2]int{{nrow - 3, 0}, {nrow - 2, 0}, {nrow - 1, 0}, {0, ncol - 2}, {0, ncol - 1}, {1, ncol - 1}, {2, ncol - 1}, {3, ncol - 1}}, chr)
+			chr++
+		}
+		if row == nrow+4 && col == 2 && ncol%8 == 0 {
+			corner([8][2]int{{nrow - 1, 0}, {nrow - 1, ncol - 1}, {0, ncol - 3}, {0, ncol - 2}, {0, ncol - 1}, {1, ncol - 3}, {1, ncol - 2}, {1, ncol - 1}}, chr)
+			chr++
+		}
+		for {
+			if row < nrow && col >= 0 && !arr[row][col].set {
+				utah(row, col, chr)
+				chr++
+			}
+			row -= 2
+			col += 2
+			if !(row >= 0 && col < ncol) {
+				break
+			}
+		}
+		row++
+		col += 3
+		for {
+			if row >= 0 && col < ncol && !arr[row][col].set {
+				utah(row, col, chr)
+				chr++
+			}
+			row += 2
+			col -= 2
+			if !(row < nrow && col >= 0) {
+				break
+			}
+		}
+		row += 3
+		col++
+		if !(row < nrow || col < ncol) {
+			break
+		}
+	}
+	if !arr[nrow-1][ncol-1].set {
+		arr[nrow-1][ncol-1] = dmCell{pos: -1, fixed: true, set: true}
+		arr[nrow-2][ncol-2] = dmCell{pos: -1, fixed: true, set: true}
+	}
+	return arr
+}
+
+func checkDMSweep(c *Ctx, r *Report) {
+	r.Rule("S-DMSWEEP", "the Annex F sweep as a whole: DefaultPlacement.Place, folded from source for each of the 30 mapping matrices with setBit / hasBit on a recording model, assigns every module the codeword and bit number that ISO 16022 Annex F.3 (written out independently in the checker) assigns it, including the fixed corner pattern, and uses each codeword of the symbol exactly once; BitMatrixParser.readCodewords, folded on a mapping matrix whose module (row, col) shows the bit of a known codeword value, returns every codeword in order and exactly the symbol's number of them", 60)
+	efd, ep := c.funcDeclOf("datamatrix/encoder", "DefaultPlacement.Place")
+	dfd, dp := c.funcDeclOf("datamatrix/decoder", "BitMatrixParser.readCodewords")
+	if efd == nil || dfd == nil {
+		r.AnchorLost("S-DMSWEEP", "datamatrix placement", "DefaultPlacement.Place / BitMatrixParser.readCodewords not found")
+		return
+	}
+	for _, sz := range refDM {
+		nrow, ncol := sz.regRows*sz.vRegions, sz.regCols*sz.hRegions
+		total := sz.data + sz.ec
+		ref := refDMPlacement(nrow, ncol)
+		// ---------------- encoder
+		key := fmt.Sprintf("datamatrix/encoder.DefaultPlacement.Place %dx%d", sz.rows, sz.cols)
+		r.Analysed(key)
+		got := make([][]dmCell, nrow)
+		for i := range got {
+			got[i] = make([]dmCell, ncol)
+		}
+		lastPos, lastBit := -1, -1
+		cws := &Val{K: VList}
+		for i := 0; i < total; i++ {
+			cws.L = append(cws.L, &Val{K: VInt, I: 0, T: types.Typ[types.Byte]})
+		}
+		recv := &Val{K: VStruct, Ptr: true, Local: true, Fields: map[string]*Val{"numrows": vint(int64(nrow)), "numcols": vint(int64(ncol)), "codewords": cws, "bits": {K: VList}}}
+		inRange := func(col, row *Val) bool {
+			return col.K == VInt && row.K == VInt && col.I >= 0 && row.I >= 0 && col.I < int64(ncol) && row.I < int64(nrow)
+		}
+		h := &rpf{unroll: 1000000, maxSteps: 20000000, effectCalls: true, env: map[types.Object]*Val{}}
+		h.env[recvObj(ep, efd)] = recv
+		h.callHook = func(rr *rpf, call *ast.CallExpr, callee types.Object) (*Val, bool) {
+			fn, ok := callee.(*types.Func)
+			if !ok {
+				return nil, false
+			}
+			switch fn.Name() {
+			case "module":
+				ps, bt := rr.expr(call.Args[2]), rr.expr(call.Args[3])
+				if ps.K != VInt || bt.K != VInt {
+					rpfFail("module called with a non-constant codeword / bit number")
+				}
+				lastPos, lastBit = int(ps.I), int(bt.I)
+				return nil, false // the body (wrap-around, codeword access) is folded as written
+			case "setBit":
+				col, row := rr.expr(call.Args[0]), rr.expr(call.Args[1])
+				if !inRange(col, row) {
+					rpfFail("setBit(%v, %v) outside the %dx%d mapping matrix", col, row, nrow, ncol)
+				}
+				cell := dmCell{pos: lastPos, bit: lastBit, set: true}
+				if lastPos < 0 {
+					v := rr.expr(call.Args[2])
+					cell = dmCell{pos: -1, fixed: v.K == VBool && v.B, set: true}
+				}
+				got[row.I][col.I] = cell
+				lastPos, lastBit = -1, -1
+				return &Val{K: VNil}, true
+			case "hasBit", "noBit":
+				col, row := rr.expr(call.Args[0]), rr.expr(call.Args[1])
+				if !inRange(col, row) {
+					rpfFail("%s(%v, %v) outside the %dx%d mapping matrix", fn.Name(), col, row, nrow, ncol)
+				}
+				return vbool(got[row.I][col.I].set == (fn.Name() == "hasBit")), true
+			}
+			return nil, false
+		}
+		_, err := c.rpfCall(efd, ep, nil, h)
+		pos := c.pos(efd.Pos())
+		if err != nil {
+			r.Undecided("S-DMSWEEP", key, pos, err.Error())
+		} else {
+			bad := ""
+			used := map[int]int{}
+			for y := 0; y < nrow && bad == ""; y++ {
+				for x := 0; x < ncol; x++ {
+					g, w := got[y][x], ref[y][x]
+					if g.set && g.pos >= 0 {
+						used[g.pos]++
+					}
+					if g != w {
+						bad = fmt.Sprintf("module (row %d, col %d) of the %dx%d mapping matrix: %s, Annex F: %s", y, x, nrow, ncol, g.describe(), w.describe())
+						break
+					}
+				}
+			}
+			for k := 0; k < total && bad == ""; k++ {
+				if used[k] != 8 {
+					bad = fmt.Sprintf("codeword %d of %d occupies %d modules", k, total, used[k])
+				}
+			}
+			r.Check(bad == "", "S-DMSWEEP", key, pos, bad)
+		}
+		// ---------------- decoder
+		dkey := fmt.Sprintf("datamatrix/decoder.BitMatrixParser.readCodewords %dx%d", sz.rows, sz.cols)
+		r.Analysed(dkey)
+		dbad := ""
+		for pass := 0; pass < 2 && dbad == ""; pass++ {
+			val := func(k int) int {
+				if pass == 0 {
+					return k % 256
+				}
+				return (k / 256) ^ 0x5A
+			}
+			visited := map[[2]int64]bool{}
+			dh := &rpf{unroll: 1000000, maxSteps: 20000000, effectCalls: true, env: map[types.Object]*Val{}}
+			precv := &Val{K: VStruct, Ptr: true, Fields: map[string]*Val{
+				"mappingBitMatrix":  {K: VStruct, Ptr: true, Fields: map[string]*Val{}},
+				"readMappingMatrix": {K: VStruct, Ptr: true, Fields: map[string]*Val{}},
+				"version":           {K: VStruct, Ptr: true, Fields: map[string]*Val{"totalCodewords": vint(int64(total))}},
+			}}
+			dh.env[recvObj(dp, dfd)] = precv
+			dh.callHook = func(rr *rpf, call *ast.CallExpr, callee types.Object) (*Val, bool) {
+				which := ""
+				if sel, ok := call.Fun.(*ast.SelectorExpr); ok {
+					if inner, ok := sel.X.(*ast.SelectorExpr); ok {
+						which = inner.Sel.Name
+					}
+				}
+				if which != "mappingBitMatrix" && which != "readMappingMatrix" {
+					return errCtorHook(rr, call, callee)
+				}
+				fn, _ := callee.(*types.Func)
+				if fn == nil {
+					return nil, false
+				}
+				switch fn.Name() {
+				case "GetHeight":
+					return vint(int64(nrow)), true
+				case "GetWidth":
+					return vint(int64(ncol)), true
+				case "Get", "Set":
+					col, row := rr.expr(call.Args[0]), rr.expr(call.Args[1])
+					if !inRange(col, row) {
+						rpfFail("%s.%s(%v, %v) outside the %dx%d mapping matrix", which, fn.Name(), col, row, nrow, ncol)
+					}
+					k := [2]int64{row.I, col.I}
+					if fn.Name() == "Set" {
+						visited[k] = true
+						return &Val{K: VNil}, true
+					}
+					if which == "readMappingMatrix" {
+						return vbool(visited[k]), true
+					}
+					cell := ref[row.I][col.I]
+					if cell.pos < 0 {
+						return vbool(cell.fixed), true
+					}
+					return vbool(val(cell.pos)>>uint(8-cell.bit)&1 == 1), true
+				}
+				return nil, false
+			}
+			res, err := c.rpfCall(dfd, dp, nil, dh)
+			if err != nil {
+				dbad = "?" + err.Error()
+				break
+			}
+			if len(res) != 2 || res[1].K != VNil || res[0].K != VList {
+				dbad = fmt.Sprintf("readCodewords reports an error on a well-formed %dx%d mapping matrix", nrow, ncol)
+				break
+			}
+			ws, ok := listInts(res[0])
+			if !ok || len(ws) != total {
+				dbad = fmt.Sprintf("readCodewords returns %d codewords, the symbol has %d", len(ws), total)
+				break
+			}
+			for k, w := range ws {
+				if int(w) != val(k) {
+					dbad = fmt.Sprintf("codeword %d of the %dx%d symbol is read as %d from a matrix that shows %d there (the modules of some other codeword were read)", k, sz.rows, sz.cols, w, val(k))
+					break
+				}
+			}
+		}
+		reportFold(r, c, "S-DMSWEEP", dkey, dfd.Pos(), dbad)
+	}
+}
+
+func (d dmCell) describe() string {
+	switch {
+	case !d.set:
+		return "never assigned"
+	case d.pos < 0:
+		return "fixed pattern, " + darkLight(d.fixed)
+	}
+	return fmt.Sprintf("bit %d of codeword %d", d.bit, d.pos)
 }
